@@ -623,14 +623,21 @@ impl Bgi {
     pub fn set_palette(&mut self, colors: &[i32]) {
         let mut pal = Palette::new();
         pal.clear();
-        for c in colors {
-            pal.push(EGA_PALETTE[*c as usize].clone());
+        for (i, c) in colors.iter().enumerate() {
+            // a value outside the 64 EGA colours leaves that entry as it is
+            match EGA_PALETTE.get(*c as usize) {
+                Some(color) => pal.push(color.clone()),
+                None => pal.push(self.palette.get_color(i as u32)),
+            }
         }
         self.palette = pal;
     }
 
     pub fn set_palette_color(&mut self, index: i32, color: u8) {
-        self.palette.set_color(index as u32, EGA_PALETTE[color as usize].clone());
+        // a value outside the 64 EGA colours leaves the entry as it is
+        if let Some(color) = EGA_PALETTE.get(color as usize) {
+            self.palette.set_color(index as u32, color.clone());
+        }
     }
 
     pub fn get_font_type(&self) -> FontType {
